@@ -67,6 +67,8 @@ def snapshot():
                 continue
             if isinstance(g, (list, dict, set)):
                 snap["%s.%s" % (mname, gname)] = (len(g), repr(g)[:3000])
+            elif isinstance(g, (int, float, str, bytes, tuple, frozenset, type(None))):
+                snap["%s.%s" % (mname, gname)] = repr(g)[:300]
             elif _mutable_repr(g) is not None and not inspect.isclass(g) and not inspect.isfunction(g) and not inspect.ismodule(g) \
                     and (inspect.isgenerator(g) or hasattr(g, "__next__")):
                 snap["%s.%s" % (mname, gname)] = _mutable_repr(g)
@@ -82,6 +84,9 @@ def snapshot():
                         r = _mutable_repr(a)
                         if r is not None:
                             snap["%s.%s.%s" % (mname, gname, aname)] = r
+                        elif isinstance(a, (int, float, str, bytes, tuple, frozenset, type(None))):
+                            # plain class attributes (counters, widths, high-water marks) are process-wide state too
+                            snap["%s.%s.%s" % (mname, gname, aname)] = repr(a)[:300]
                 for fname, dv in getattr(g, "_field_defaults", {}).items():
                     r = _mutable_repr(dv)
                     if r is not None:
@@ -275,6 +280,70 @@ def make_process_include():
     return ob
 
 
+HISTORY = {
+    "long-label": ["AVERYLONGLABELNAME12345 NOP", " JMP AVERYLONGLABELNAME12345"],
+    "long-label-rejected": ["ANOTHERVERYLONGLABEL99 FROB 1"],
+    "bom": ["\ufeff NAM BOMMED", " NOP"],
+    "bom-label": ["\ufeffSTART NOP", " BRA START"],
+    "long-comment": [" NOP ; " + "a very long comment " * 12],
+    "long-operand": [' FCC "' + "STRING" * 30 + '"'],
+    "wide-list": [" FDB " + ",".join("$%04X" % (i * 257) for i in range(40))],
+    "many": ["L%d NOP" % i for i in range(300)],
+    "lower": [" lda #1", "start nop"],
+    "tabs": ["\tNOP", "T1\tLDA\t#1\tcomment"],
+    "crlf": [" NOP\r\n", "C1 LDA #1\r\n"],
+    "blank": ["", "   ", "* star comment", "; semi comment"],
+    "big-origin": [" ORG $FFF0", " NOP"],
+    "end-entry": ["S1 NOP", " END S1"],
+    "setdp": [" SETDP $20", " LDA <$2010"],
+}
+
+
+def listing(out):
+    if not out.ok:
+        return ("rejected", out.exc_name, str(out.exc))
+    p = out.program
+    return ([str(s) for s in p.get_statements()] if hasattr(p, "get_statements") else [str(s) for s in p.statements],
+            [str(s) for s in p.get_symbol_table()] if hasattr(p, "get_symbol_table") else sorted(p.symbol_table),
+            list(image(p)), None if p.origin.is_none() else p.origin.int, p.name)
+
+
+def make_history(pname, values):
+    """concrete P: listing / symbol table / image STRINGS before and after every history program (accepted or rejected);
+    each history program's own list of lines must come back unchanged"""
+    prog = meta.PROGRAMS[pname]
+
+    def body(ctx):
+        from vlib.cut import Lit
+        texts = {name: Lit(cls, name).real_text(abs(values[name])) for name, (cls, lo, hi) in prog["lits"].items()}
+        lines = [l + "\n" for l in meta.render(prog["body"], texts)]
+        base = listing(assemble(lines))
+        before = snapshot()
+        bad = []
+        for hname, hl in HISTORY.items():
+            src = [l if l.endswith("\n") else l + "\n" for l in hl]
+            given = list(src)
+            assemble(src, wall_limit=20)
+            if src != given:
+                bad.append("%s: the caller's list of source lines was modified" % hname)
+            now = listing(assemble(lines))
+            if now != base:
+                bad.append("%s: listing/symbols/image of P changed afterwards" % hname)
+            if snapshot() != before:
+                bad.append("%s: module-level state changed" % hname)
+            if bad:
+                break
+        info = {"program": pname, "values": values, "bad": bad}
+        if not bad:
+            return True, info
+        return ctx.known(PID, {"part": "history"}, {"bad": bad}), info
+    ob = Ob("C17:history:%s" % pname, body, timeout=600, tags={"part": "history"},
+            text="listing strings of %s before/after %d history programs (enumeration)" % (pname, len(HISTORY)), r4=False)
+    ob.native_only = True
+    ob.ncases = len(HISTORY)
+    return ob
+
+
 def obligations(tier, seed):
     import random
     rnd = random.Random(seed + 51)
@@ -286,6 +355,8 @@ def obligations(tier, seed):
             obs.append(make(pname, qs))
     for name, lines in REJECTED.items():
         obs.append(make_reject_twice(name, lines))
+    for pname, prog in meta.PROGRAMS.items():
+        obs.append(make_history(pname, {k: (lo + hi) // 2 for k, (cls, lo, hi) in prog["lits"].items()}))
     obs.append(make_process_ties())
     obs.append(make_include("P-P", []))
     obs.append(make_include("P-Q-P", ["Q"]))
